@@ -802,7 +802,11 @@ pub fn prom_parse(data: &[u8]) -> Result<PromDoc, String> {
         }
         let (name, mut rest) = take_name(l, true).ok_or_else(|| err("invalid metric name"))?;
         let mut labels: Vec<(String, String)> = Vec::new();
+        let blank_after_name = rest.starts_with([' ', '\t']);
         rest = skip_blank(rest);
+        if !blank_after_name && !rest.starts_with('{') {
+            return Err(err("expected blank or '{' after metric name"));
+        }
         if let Some(r) = rest.strip_prefix('{') {
             let mut r = skip_blank(r);
             loop {
@@ -845,9 +849,6 @@ pub fn prom_parse(data: &[u8]) -> Result<PromDoc, String> {
                     return Err(err("expected ',' or '}' after label value"));
                 }
             }
-        }
-        if !rest.starts_with([' ', '\t']) {
-            return Err(err("expected blank before sample value"));
         }
         let rest = skip_blank(rest);
         let mut toks = rest.split([' ', '\t']).filter(|t| !t.is_empty());
